@@ -3,13 +3,21 @@ from .zones import ZoneAnalysis
 from .rules_layout import short
 
 
+def helper_filter(prog):
+    """private, loop-or-not helper functions of the same module may be analysed in place"""
+    return lambda cb: cb.key not in prog.exported and len(cb.blocks) <= 60 and not cb.raw.get("unsafe_fn")
+
+
 def run_zones(ctx, prog, body, pre, pre_text, rule="R18", floor=None):
+    from .facts import inline_calls
+    key_body = body
+    body = inline_calls(prog, body, helper_filter(prog))
     za = ZoneAnalysis(body, pre)
     obs = za.run()
     ordinal = {}
     for kind, bb, ok, detail, state in obs:
         ordinal[kind] = ordinal.get(kind, 0) + 1
-        key = "%s/%s#%d" % (short(body.key), kind, ordinal[kind])
+        key = "%s/%s#%d" % (short(key_body.key), kind, ordinal[kind])
         if not ok:
             key += "/undischarged:" + detail.split(" needs ")[-1] if " needs " in detail else key
         ctx.ob(rule, key, ok, body.where(bb, "term"),
